@@ -45,7 +45,9 @@ SIG_LAMBDA = 'C16:lambda-renamed'
 SIG_FUNC = 'C16:keyword-named-func'
 
 
-KNOWN_SHAPES = (SIG_CLASH, SIG_POSKW, SIG_SHADOW, SIG_LAMBDA, SIG_FUNC)
+# signatures of recorded findings (their witnesses must not stop the exploration early); SIG_FUNC was repaired in
+# /repo 85bde09 and is an ordinary failure class
+KNOWN_SHAPES = (SIG_CLASH, SIG_POSKW, SIG_SHADOW, SIG_LAMBDA)
 
 
 def report(ctx, sig, what, case):
